@@ -306,16 +306,21 @@ static Verdict c09_check(const KV &c, Ctx &ctx) {
     Bytes prefix = c.get("gensalt");
     char out[CRYPT_GENSALT_OUTPUT_SIZE];
     char *r = nullptr;
-    on_poisoned_stack([&]() { r = crypt_gensalt_rn(prefix.c_str(), 0, nullptr, 0, out, sizeof out); });
+    unsigned long cnt = (unsigned long)c.getu("gs_count", 0);
+    int osz = (int)c.geti("gs_size", (long long)sizeof out);
+    if (osz > (int)sizeof out) osz = (int)sizeof out;
+    if (osz < 0) osz = 0;
+    on_poisoned_stack([&]() { r = crypt_gensalt_rn(prefix.c_str(), cnt, nullptr, 0, out, osz); });
     S.entropy_stub = false;
     ctx.st.executed++;
     size_t req = 0;
     for (size_t q : S.entropy_reqs) req += q;
-    if (r && req >= 8) {
+    // whether the call succeeds or fails, the bytes it drew must be gone when it returns
+    if (req >= 8) {
       std::string hs = scan_stack(nd);
-      if (!hs.empty()) return "C09 crypt_gensalt_rn(\"" + vis(prefix) + "\", rbytes=NULL) leaves the random bytes it drew on the stack (" + hs + ")";
-      ctx.st.nontriv(fnv(prefix + c.get("seed")));
-      ctx.st.cls(std::string("c09-gensalt/") + METHOD_NAME[classify_prefix(prefix)]);
+      if (!hs.empty()) return "C09 crypt_gensalt_rn(\"" + vis(prefix) + "\", " + std::to_string(cnt) + ", rbytes=NULL, output_size=" + std::to_string(osz) + ") " + (r ? "succeeds" : "fails") + " and leaves the random bytes it drew on the stack (" + hs + ")";
+      ctx.st.nontriv(fnv(prefix + c.get("seed") + std::to_string(cnt) + "/" + std::to_string(osz)));
+      ctx.st.cls(std::string("c09-gensalt/") + METHOD_NAME[classify_prefix(prefix)] + (r ? "/success" : "/failure"));
     }
     return "";
   }
@@ -419,6 +424,9 @@ static int c09_run(Ctx &ctx) {
     if (kind == 2) {
       static const char *PF[] = {"$y$", "$gy$", "$7$", "$2b$", "$2y$", "$2a$", "$6$", "$5$", "$sha1", "$md5", "$1$", "_", ""};
       c.set("gensalt", PF[g::pick(0, 12)]);
+      int gk = g::wpick({3, 2, 2});
+      if (gk == 1) c.setu("gs_count", (unsigned long long)g::oneof<int>({1, 2, 3, 12, 32, 99, 1000, 5000}));
+      if (gk == 2) c.seti("gs_size", g::pick(3, 40));
       return c;
     }
     if (kind == 3) {
